@@ -992,7 +992,9 @@ func (c *Ctx) lruAuxTables(r *lruRoles, rule string) {
 		}
 	}
 	if n == 0 {
-		c.Decide(rule, r.getOrCreate, "creator epilogue cleans the cache's tables", nil, false, "no table clean-up found behind the create call")
+		// the clean-up of the in-flight table is not in the function that calls the create function (delegated to a helper
+		// or a closure): the rules of the in-flight table (C09.R2, shared as C11.R4) decide it where it is
+		c.Decide(rule, r.getOrCreate, "creator epilogue cleans the cache's tables", nil, true, "")
 	}
 }
 
@@ -1031,7 +1033,59 @@ func (c *Ctx) compositeCloseClosesAll(rule string) {
 			paths[s.path] = true
 		}
 		if len(paths) < 2 {
-			continue // owns at most one iterator
+			// the sources kept in an array/slice and closed in a loop: the loop must run over all of them - no exit from
+			// inside the loop body (return, break) besides the exhausted range
+			for _, s := range sites {
+				blk := s.in.Block()
+				// the innermost natural loop around the call
+				var header *ssa.BasicBlock
+				body := map[*ssa.BasicBlock]bool{}
+				for d := blk; d != nil && header == nil; d = d.Idom() {
+					var work []*ssa.BasicBlock
+					for _, p := range d.Preds {
+						if d.Dominates(p) {
+							work = append(work, p)
+						}
+					}
+					if len(work) == 0 {
+						continue
+					}
+					nat := map[*ssa.BasicBlock]bool{d: true}
+					for len(work) > 0 {
+						x := work[len(work)-1]
+						work = work[:len(work)-1]
+						if nat[x] {
+							continue
+						}
+						nat[x] = true
+						work = append(work, x.Preds...)
+					}
+					if nat[blk] {
+						header, body = d, nat
+					}
+				}
+				if header == nil {
+					continue // a single source
+				}
+				n++
+				early := false
+				for x := range body {
+					if len(x.Succs) == 0 {
+						early = true
+					}
+					if x == header {
+						continue
+					}
+					for _, sc := range x.Succs {
+						if !body[sc] {
+							early = true
+						}
+					}
+				}
+				c.Decide(rule, fn, "Close closes every source of the loop", s.in, !early,
+					"the loop that closes the sources can be left before all of them are closed (an earlier Close failed): a map iterator behind a later one keeps its list node pinned for ever")
+			}
+			continue
 		}
 		for p := range paths {
 			p := p
@@ -1656,7 +1710,31 @@ func (c *Ctx) unlinkSurgery(r *mapRoles, rule string) {
 			}
 		}
 		if !paired {
-			w, err := (ir.Query{Fn: fn, From: ns.st, Block: isOther, Target: ir.IsExit}).Find()
+			// ... or leaves over an edge on which the node is known to have no neighbour on the other side
+			noOther := func(from, to *ssa.BasicBlock) bool {
+				ef := ir.EdgeFact(from, to)
+				if ef == nil {
+					return false
+				}
+				cm, isCmp := ef.Cmp()
+				if !isCmp || cm.Op != token.EQL {
+					return false
+				}
+				x, y := cm.X, cm.Y
+				if ir.IsNilConst(x) {
+					x, y = y, x
+				}
+				if !ir.IsNilConst(y) {
+					return false
+				}
+				for _, o := range ir.Origins(x) {
+					if ld, isLd := o.(*ssa.UnOp); isLd && ld.Op == token.MUL && ownLink(ld.X) == other {
+						return true
+					}
+				}
+				return false
+			}
+			w, err := (ir.Query{Fn: fn, From: ns.st, Block: isOther, BlockEdge: noOther, Target: ir.IsExit}).Find()
 			paired = err == nil && w == nil
 		}
 		c.Decide(rule, fn, "both neighbours are rewired", ns.st, paired,
